@@ -92,7 +92,10 @@ void INTERNAL hazardous_ptr(unsigned int which,
 static int void_cmp(const void *a,
                     const void *b)
 {/*{{{*/
-    return (*(intptr_t *)a) - (*(intptr_t *)b);
+    const uintptr_t x = *(const uintptr_t *)a;
+    const uintptr_t y = *(const uintptr_t *)b;
+
+    return (x > y) - (x < y);
 }/*}}}*/
 
 static int binary_search(uintptr_t *list,
